@@ -121,6 +121,51 @@ func Run(r *core.Run) {
 	keys.FixRand(0x42)
 	r.Extra["jws_under_test"] = len(items)
 
+	// one signer, several signatures held at the same time: each JWS / signature made by the matching key over its own bytes must
+	// still verify (library and independent verifier) after the same signer has signed other payloads
+	for _, t := range keys.Types {
+		t := t
+		id := "one-signer-several-signatures/" + t
+		r.Case(id, func() *core.Fail {
+			k := keys.New(t, 930)
+			sg := signer(k)
+			own := k.JWKMap()
+			payloads := [][]byte{[]byte(`{"n":1}`), []byte(`payload two, a little longer than the first`), []byte(`3`), []byte(`{"n":1}`)}
+			var held []*jwsutil.JSONWebSignature
+			var raw [][]byte
+			for _, p := range payloads {
+				j, err := jwsutil.NewJWS(sg.Headers(), nil, p, sg)
+				if err != nil {
+					return &core.Fail{Key: id, What: "NewJWS failed: " + err.Error()}
+				}
+				held = append(held, j)
+				sig, err := sg.Sign(p)
+				if err != nil {
+					return &core.Fail{Key: id, What: "Sign failed: " + err.Error()}
+				}
+				raw = append(raw, sig)
+			}
+			for i, j := range held {
+				c, err := j.SerializeCompact(false)
+				if err != nil {
+					return &core.Fail{Key: id, What: "SerializeCompact failed: " + err.Error()}
+				}
+				det := map[string]any{"jws": c, "jwk": own, "position": i}
+				if res, err := jwsutil.VerifyJWS(c, jwkOf(own)); err != nil || !bytes.Equal(res.Payload, payloads[i]) {
+					return &core.Fail{Key: id, What: fmt.Sprintf("JWS number %d made by one signer no longer verifies under its key after the signer signed other payloads: %v", i, err), Detail: det}
+				}
+				if _, ok := rjws.Verify(c, own); !ok {
+					return &core.Fail{Key: id, What: fmt.Sprintf("JWS number %d made by one signer does not verify under the independent verifier after the signer signed other payloads", i), Detail: det}
+				}
+				if err := jwsutil.VerifySignature(jwkOf(own), raw[i], payloads[i]); err != nil {
+					return &core.Fail{Key: id, What: fmt.Sprintf("signature number %d returned by Sign no longer verifies after later Sign calls on the same signer: %v", i, err), Detail: det}
+				}
+			}
+			return nil
+		})
+		r.Observe(id)
+	}
+
 	type mutation struct {
 		id      string
 		compact string
